@@ -127,6 +127,15 @@ func closeEnough(a, b, scale float64) bool {
 
 func oracle(c *gridx.Case, r *vf.Rec) {
 	x1, x2, x3, x4 := c.Params[0], c.Params[1], c.Params[2], c.Params[3]
+	if c.Init != nil {
+		// the mid-fill table holds the stores as fractions of their capacities
+		init := append([]float64{}, c.Init...)
+		init[0] *= x1
+		init[1] *= x3
+		cc := *c
+		cc.Init = init
+		c = &cc
+	}
 	res := c.Run()
 	n1 := int(math.Ceil(x4))
 	n2 := int(math.Ceil(2 * x4))
@@ -194,11 +203,11 @@ func spaces(tier string) []*gridx.Space {
 	A := func(n string, v ...float64) gridx.Axis { return gridx.Axis{Name: n, Vals: v} }
 	var out []*gridx.Space
 	for _, x4 := range x4s {
-		ps, pn := gridx.Grid("GR4J", map[string]float64{"X4": x4}, []gridx.Axis{A("X1", 100, 350, 1200), A("X2", -3, 0, 2), A("X3", 20, 90, 300)})
+		ps, pn := gridx.Grid("GR4J", map[string]float64{"X4": x4}, []gridx.Axis{A("X1", 1, 100, 350, 1500), A("X2", -10, -3, 0, 2, 5), A("X3", 1, 5, 20, 90, 500)})
 		n1 := int(math.Ceil(x4))
 		n2 := int(math.Ceil(2 * x4))
-		// mid-fill initial state: s=60, r=12, buffers with distinct pending releases
-		mid := []float64{60, 12, float64(n1), float64(n2)}
+		// mid-fill initial state: S = 0.6*X1, R = 0.7*X3 (fractions, scaled in the oracle), buffers with distinct pending releases
+		mid := []float64{0.6, 0.7, float64(n1), float64(n2)}
 		for i := 0; i < n2; i++ {
 			mid = append(mid, 0.3+0.1*float64(i))
 		}
@@ -213,7 +222,7 @@ func spaces(tier string) []*gridx.Space {
 func Spec() *vf.Check {
 	return &vf.Check{
 		ID: "C15", Level: "exploration", BlockSize: 4096,
-		Rule: "X4 in {0.5,0.6,0.75,0.9,1,1.1,1.5,1.9,2,2.2,2.5,3,3.3,3.9,4} (every n1=ceil(X4) in 1..4 and n2=ceil(2*X4) in 1..8) x X1{100,350,1200} x X2{-3,0,2} x X3{20,90,300} x {model-initialised, mid-fill} initial stores x every (rain,PET) word of length T over {(0,0),(0,4),(3,4),(40,1),(120,0)}; " +
+		Rule: "X4 in {0.5,0.6,0.75,0.9,1,1.1,1.5,1.9,2,2.2,2.5,3,3.3,3.9,4} (every n1=ceil(X4) in 1..4 and n2=ceil(2*X4) in 1..8) x X1{1,100,350,1500} x X2{-10,-3,0,2,5} x X3{1,5,20,90,500} (the documented range ends included) x {model-initialised, mid-fill} initial stores x every (rain,PET) word of length T over {(0,0),(0,4),(3,4),(40,1),(120,0)}; " +
 			"runoff at every step and final S, R, UH stores compared (1e-9 relative) with an independent implementation of Perrin et al. 2003. distinct_nontrivial = cases with runoff > 0.",
 		Assumptions: []string{"the reference follows Perrin et al. (2003): S-curves with exponent 5/2, percolation constant 4/9, 90/10 split, exchange x2 (R/x3)^(7/2), tanh argument capped at 13 as in the original code", "lattice values only"},
 		Build:       func(tier string) vf.Enumeration { return gridx.NewEnum("C15", spaces(tier)) },
